@@ -26,6 +26,7 @@ FUNC_OPTIONS = {
     "F_string_len_trim": [False],
     "F_create_bufferify_function": [False],
     "F_create_generic": [False],
+    "F_CFI": [True],
     "return_scalar_pointer": ["scalar"],
     "F_return_fortran_pointer": [False],
     "C_line_length": [100],       # read by each emitter per line? (library-level in emitters: expected equal only at library scope) -- excluded below
@@ -326,6 +327,9 @@ def sibling_view(rr, info):
     others, me = [x.lower() for x in info["others"]], info["stem"].lower()
     view = {}
     for rel, text in source_outputs(rr).items():
+        # the index of a release routine in the library's destructor table is a sequence number over the whole library:
+        # it moves consistently when another declaration gains or loses a routine (not a change of this declaration)
+        text = re.sub(r"(idtor\s*=\s*)\d+", r"\1N", text)
         low = text.lower()
         lines = [ln for ln in low.split("\n") if any(o in ln for o in others) and me not in ln]
         blocks = {n_: b_ for n_, b_ in extract_blocks(text).items() if any(o in n_.lower() for o in others) and me not in n_.lower()}
@@ -354,14 +358,27 @@ def main(rec):
             m_ = next((x for x in allsingles if re.search(pat, x[0]) and x not in singles), None)
             if m_ is not None and not any(re.search(pat, x[0]) for x in singles):
                 singles.append(m_)
-    for li, (name, d, meta) in enumerate(mixes + singles):
+    # two fixed libraries that are always part of the run: declaration forms whose processing writes options or flags
+    # (templates, overloads, default arguments, converted strings / vectors) next to plain ones, in two orders
+    by_id = {}
+    for row_, T_ in gen.instances("c++", ("c", "fortran")):
+        by_id.setdefault(row_["id"], (row_, T_))
+    fixed_ids = ["scalar2", "str_cref", "template_arg", "str_ref_out", "overload2", "vec_in", "default2", "str_res_val", "res_ptr_fixed",
+                 "cstr_in", "generic_real", "vec_out", "mixed", "str_res_cref", "cstr_inout", "res_ptr_scalar", "class_long_overloads", "class_named", "res_ptr_deref_scalar", "class_basic"]
+    fixed_items = [by_id[i] for i in fixed_ids if i in by_id]
+    fixed = [("gfixa", gen.library("gfixa", "c++", fixed_items, ("c", "fortran")), {}),
+             ("gfixb", gen.library("gfixb", "c++", list(reversed(fixed_items)), ("c", "fortran")), {})]
+    for li, (name, d, meta) in enumerate(mixes + singles + fixed):
         prs = []
-        prs += pairs_scope(r, name, d, thorough, 4 * li) if (name.startswith("gmix") or thorough) else pairs_scope(r, name, d, False, 4 * li, small=True)
+        if name.startswith("gfix"):
+            prs += pairs_scope(r, name, d, True)           # the fixed libraries meet every setting of the curated list
+        else:
+            prs += pairs_scope(r, name, d, thorough, 4 * li) if (name.startswith("gmix") or thorough) else pairs_scope(r, name, d, False, 4 * li, small=True)
         prs += pairs_attrs(name, d)
         prs += pairs_block(r, name, d)
         for rel, a, b in prs:
             jobs.append((rel, name, spec_of(name, a), spec_of(name, b)))
-        for rel, a, b, info in pairs_sibling(common.rng("c14sib", name), name, d, (6 if thorough else 3) if name.startswith("gmix") else 1):
+        for rel, a, b, info in pairs_sibling(common.rng("c14sib", name), name, d, (6 if thorough else 3) if name.startswith("gmix") else (8 if name.startswith("gfix") else 1)):
             sa_ = spec_of(name, a)
             sa_["sib"] = info
             jobs.append((rel, name, sa_, spec_of(name, b)))
